@@ -176,6 +176,17 @@ impl<T: Item + ItemA + 'static, const WK: bool> Sess<T, WK> {
         let bad = "bad".to_string();
         match words[0] {
             "task" => { self.task = num(1); "unit".into() }
+            "rewrap" => {
+                // `into_sync()` hands the synchronous iterator back, `from_sync` wraps it again: the same iterator, no waker registered
+                let k = kidx(words[1]);
+                if self.held[k].is_some() { return bad; }
+                macro_rules! rw { ($slot:expr, $A:ty) => {
+                    match std::mem::replace(&mut $slot, Slot::Gone) {
+                        Slot::Att(a) => { let it = (*a).into_sync(); $slot = Slot::Att(Box::new(<$A>::from_sync(it))); "unit".to_string() }
+                        other => { $slot = other; bad.clone() }
+                    } } }
+                match k { 0 => rw!(self.p, AsyncProdIter<'static, B<T>>), 1 => rw!(self.w, AsyncWorkIter<'static, B<T>>), _ => rw!(self.c, AsyncConsIter<'static, B<T>, WK>) }
+            }
             "hold" | "repoll" | "dropfut" => {
                 if words[0] == "dropfut" {
                     let k = kidx(words[1]);
